@@ -441,8 +441,9 @@ fn main() {
         let mut pats: Vec<String> = vec![];
         for (i, lo) in vers.iter().enumerate() {
             for (j, hi) in vers.iter().enumerate() {
-                // quick tier: every third (lower, upper) pair
-                if !run.thorough() && (i + 2 * j) % 3 != 0 {
+                // quick tier: every third (lower, upper) pair (the stride involves the triple's index, so that
+                // every pair of spellings meets for some pair of triples)
+                if !run.thorough() && (i + 2 * j + i / 6 + j / 6) % 3 != 0 {
                     continue;
                 }
                 for (o1, o2) in [(">=", "<"), (">", "<=")] {
